@@ -45,7 +45,9 @@ def split_name(name, cls):
         for p in ("t_", "s_", "u_", "e_"):
             if name.startswith(p):
                 return p, name[len(p):]
-        return None, name           # a library type: never renamed
+        if name in LIBRARY or name in ("t_list", "t_point"):
+            return None, name       # a library / externally defined type: never renamed
+        return "", name
     if cls == "guard":
         return None, name           # the guard follows the file name
     if cls == "func" and name.startswith("ft_"):
@@ -71,6 +73,11 @@ def candidates(name, cls):
     if len(free) > 1:
         out.append(pfx + free[:-1] + ("9" if free[-1] != "9" else "8"))
         out.append(pfx + free[0] + "_" + free[2:] if len(free) > 2 else pfx + free[0] + "_")
+    # a type-like suffix (still lower snake case): `_t`
+    if len(free) >= 3 and free.islower():
+        out.append(pfx + free[:-2] + "_t")
+    if len(free) == 1 and cls in ("var", "local", "param") and not pfx:
+        pass
     # keyword-adjacent name of the same length
     for adj in ADJACENT:
         if len(adj) == len(free):
